@@ -93,15 +93,20 @@ static void *vpd_memset(void *p, int c, size_t n)
 #define VPD_SMALL_COPY 32
 #endif
 #ifdef VP_CBMC
+static void *vpd_memcpy_var(void *d, const void *s, size_t n)
+{
+	size_t i;
+	vpd_check_write(d, n);
+	for (i = 0; i < n; i++) ((unsigned char *)d)[i] = ((const unsigned char *)s)[i];
+	return d;
+}
 static void *vpd_memcpy(void *d, const void *s, size_t n)
 {
+	size_t i;
 	vpd_check_write(d, n);
 	if (n == sizeof(struct reply)) *(struct reply *)d = *(const struct reply *)s;
 	else if (n == sizeof(struct vpd_request_obj) || n == sizeof(struct request) + VPD_REQDATA) *(struct vpd_request_obj *)d = *(const struct vpd_request_obj *)s;
-	else if (n <= VPD_SMALL_COPY) {      /* the solver-chosen lengths of these harnesses: a loop with a literal bound */
-		size_t i;
-		for (i = 0; i < VPD_SMALL_COPY; i++) if (i < n) ((unsigned char *)d)[i] = ((const unsigned char *)s)[i];
-	} else { size_t i; for (i = 0; i < n; i++) ((unsigned char *)d)[i] = ((const unsigned char *)s)[i]; }
+	else for (i = 0; i < n; i++) ((unsigned char *)d)[i] = ((const unsigned char *)s)[i];
 	return d;
 }
 #endif
